@@ -856,7 +856,7 @@ int main(int argc, char **argv) {
               continue; // outside the half-open box
             const std::string rep = fmt("{\"cfg\": \"%s\", \"build\": \"refine\", \"history\": \"%s\", \"point\": \"%a %a %a\"}", cfg.name.c_str(),
                                         hist_str(hist).c_str(), p.x(), p.y(), p.z());
-            const bool at_top = side == 1 && sgn < 0 && std::fabs(face - top[d]) <= ptol[d];
+            const bool at_top = side == 1 && std::fabs(face - top[d]) <= ptol[d];
             uint64_t key = 0;
             int status = 0; // 0 ok, 1 crashed
             {
@@ -887,7 +887,7 @@ int main(int argc, char **argv) {
               if (nr != 8 || !WIFEXITED(stt) || WEXITSTATUS(stt) != 0)
                 status = 1;
             }
-            const char *where = at_top ? ":one-ulp-below-upper-box-face" : ":one-ulp-from-an-interior-face";
+            const char *where = at_top ? ":within-roundoff-below-upper-box-face" : ":one-ulp-from-an-interior-face";
             if (status == 1)
               R.violation(std::string("C16:amr:get_key:crash") + where,
                           fmt("cfg %s (anchor %g, side %g, %d blocks along axis %d): get_key/get_cell(%a,%a,%a) crashes or aborts in a child "
